@@ -992,7 +992,8 @@ class LogixDriver(CIPDriver):
             return_size = (
                 _tag_return_size(tag_data) + len(request.message) + 2
             )  # response overhead  # TODO make const
-            if return_size > self.connection_size:
+            # a request must fit a multi-service packet on its own, else its reply could not be returned
+            if return_size + MULTISERVICE_READ_OVERHEAD > self.connection_size:
                 request = ReadTagFragmentedRequestPacket.from_request(self._sequence, request)
                 fragmented_requests.append(request)
             else:
@@ -1011,11 +1012,9 @@ class LogixDriver(CIPDriver):
             current_group.append(req)
             current_response_size += resp_size
 
-        # test if the first list is empty
-        if grouped_requests[0]:
-            multi_requests = [
-                MultiServiceRequestPacket(self._sequence, group) for group in grouped_requests
-            ]
+        multi_requests = [
+            MultiServiceRequestPacket(self._sequence, group) for group in grouped_requests if group
+        ]
 
         return multi_requests + fragmented_requests
 
